@@ -19,20 +19,37 @@ pub fn drive(seed: u64, outdir: &str, thorough: bool) {
   let mut jobs = vec![];
   // the last trees are big: hundreds of files, so that the walker threads get far ahead of the printing thread
   let n_big = if thorough { 3 } else { 1 };
-  let n_trees = n_trees + n_big;
+  // one more tree: a single small file with a finding next to larger files without any (the verdict of the whole
+  // run hangs on one file, whichever thread finishes last)
+  const N_LONELY: usize = 3;
+  let n_trees = n_trees + n_big + N_LONELY;
   for tree in 0..n_trees {
-    let big = tree >= n_trees - n_big;
+    let lonely = tree >= n_trees - N_LONELY;
+    let big = !lonely && tree >= n_trees - N_LONELY - n_big;
     // a tree: 6-14 files in nested directories; k matches per file; some faulty
-    let n_files = if big { 320 + rng.below(120) } else { 6 + rng.below(9) };
+    let n_files = if lonely { 8 } else if big { 320 + rng.below(120) } else { 6 + rng.below(9) };
     let mut files: Vec<(String, Vec<u8>, &'static str)> = vec![];
     for i in 0..n_files {
       let dir = if big { format!("d{}/", i % 17) } else { ["", "a/", "a/b/", "c/"][rng.below(4)].to_string() };
-      let path = format!("{dir}f{i}.js");
+      // in a lonely tree the file with the finding is first, in the middle or last by name
+      let path = if lonely && i == 0 { format!("src/{}.js", ["a0", "m", "zz"][n_trees - 1 - tree]) }
+        else if lonely { format!("src/f{i}.js") } else { format!("{dir}f{i}.js") };
       // the first small tree always carries one file beyond the size limit with few lines (eligible: the limit is
       // size AND line count) and, in the thorough tier, one beyond both limits (skipped)
       let fault = if !big && tree == 0 && i == 0 { "large-few-lines" }
         else { match rng.below(if big { 40 } else { 9 }) { 0 => "empty", 1 => "non-utf8", 2 if thorough && !big => "oversized", _ => "ok" } };
-      let content: Vec<u8> = match fault {
+      let fault = if lonely { "ok" } else { fault };
+      let content: Vec<u8> = if lonely {
+        // the file with the finding is a quarter of the size of the clean ones, which differ in size among
+        // themselves: files start and finish at different times around it, and matching takes a while in each
+        let mut t = String::new();
+        let n = if i == 0 { 100 } else { 300 + 40 * ((i * 5) % 7) };
+        for j in 0..n {
+          t.push_str(&format!("function g{j}(a, b) {{\n  const x = bar(a, {j}) + baz(\"x\", b);\n  if (x > {j}) {{ log(x); }} else {{ log(-x); }}\n  return [x, a, b].map(v => twice(v));\n}}\n"));
+        }
+        if i == 0 { t.push_str("foo(1);\n"); }
+        t.into_bytes()
+      } else { match fault {
         "empty" => vec![],
         "non-utf8" => b"foo(1); \xff\xfe foo(2);\n".to_vec(),
         "large-few-lines" => {
@@ -54,11 +71,11 @@ pub fn drive(seed: u64, outdir: &str, thorough: bool) {
           for j in 0..k { s.push_str(&format!("foo({j}); bar(\"é\");\n")); }
           s.into_bytes()
         }
-      };
+      } };
       files.push((path, content, fault));
     }
-    let threads: Vec<usize> = if big { (if thorough { vec![2, 8, 16] } else { vec![8] }) } else if thorough { vec![1, 2, 3, 4, 8, 16] } else { vec![1, 2, 4, 16] };
-    let reps = if big { 1 } else if thorough { 4 } else { 2 };
+    let threads: Vec<usize> = if lonely { vec![2, 4, 8] } else if big { (if thorough { vec![2, 8, 16] } else { vec![8] }) } else if thorough { vec![1, 2, 3, 4, 8, 16] } else { vec![1, 2, 4, 16] };
+    let reps = if big { 1 } else if lonely { 3 } else if thorough { 4 } else { 2 };
     for &j in &threads {
       for rep in 0..reps {
         // big trees are printed into a pipe nobody reads for a while
@@ -94,14 +111,17 @@ pub fn drive(seed: u64, outdir: &str, thorough: bool) {
     let jn = j.to_string();
     let sched_s = sched.to_string();
     // both workers share run_worker: `sg run` (pattern) and `sg scan` (rule file); every other job scans
-    let use_scan = idx % 2 == 1;
+    let lonely = *tree >= n_trees - N_LONELY;
+    let use_scan = idx % 2 == 1 || lonely;
     if use_scan {
-      p.write(".verif-rule.yml", br#"{"id": "r", "language": "JavaScript", "severity": "warning", "message": "m", "rule": {"pattern": "foo($A)"}}"#);
+      p.write(".verif-rule.yml", br#"{"id": "r", "language": "JavaScript", "severity": "error", "message": "m", "rule": {"pattern": "foo($A)"}}"#);
     }
     let args: Vec<&str> = if use_scan { vec!["scan", "-r", ".verif-rule.yml", "--json=stream", "--inspect", "summary", "-j", &jn, "."] }
       else { vec!["run", "-p", "foo($A)", "-l", "js", "--json=stream", "--inspect", "summary", "-j", &jn, "."] };
-    let env = [("AST_GREP_VERIF_TRACE", trace.as_str()), ("AST_GREP_VERIF_SCHED", sched_s.as_str())];
-    let o = if *slow { cli::run_sgv_slow_reader(&args, &p.root, 120, &env, 1200) } else { run_sgv(&args, &p.root, None, 120, &env) };
+    // lonely trees alternate between perturbed and unperturbed schedules
+    let env_all = [("AST_GREP_VERIF_TRACE", trace.as_str()), ("AST_GREP_VERIF_SCHED", sched_s.as_str())];
+    let env = if lonely && rep % 2 == 0 { &env_all[..1] } else { &env_all[..] };
+    let o = if *slow { cli::run_sgv_slow_reader(&args, &p.root, 120, env, 1200) } else { run_sgv(&args, &p.root, None, 120, env) };
     p.remove();
     let events = if std::path::Path::new(&trace).exists() { util::read_ndjson(&trace) } else { vec![] };
     let _ = std::fs::remove_file(&trace);
@@ -137,6 +157,8 @@ pub fn drive(seed: u64, outdir: &str, thorough: bool) {
     }
     let (exp, faulty) = &expected[tree];
     let config = json!({"ev": "config", "id": format!("tree{tree}-j{j}-r{rep}{}", if *slow { "-slowreader" } else { "" }), "threads_flag": j, "sched": sched, "front": if use_scan { "scan" } else { "run" },
+      // `scan` with an error-level rule exits 1 exactly when some file has a finding, whatever thread saw it
+      "expect_exit": if use_scan && !exp.is_empty() { 1 } else { 0 },
       "files": outcome.keys().collect::<Vec<_>>(), "outcome": outcome.values().collect::<Vec<_>>(), "tids": tids,
       "all_files": files.iter().map(|f| f.0.clone()).collect::<Vec<_>>(), "n_files": files.len(), "faulty": faulty,
       "expected": exp, "printed": printed, "parsed": parsed, "scanned": scanned, "skipped": skipped, "exit": o.code,
